@@ -98,6 +98,10 @@ def rand_table(r, nrows, nfields, text, big=False):
         else:
             ts = (">" if (big and not text and r.random() < 0.5) else "<") + t
         fields.append([NAMES[i], ts, sh])
+    return {"fields": fields, "rows": gen_rows(r, fields, nrows, text)}
+
+
+def gen_rows(r, fields, nrows, text):
     rows = []
     for _ in range(nrows):
         raw = b""
@@ -113,7 +117,36 @@ def rand_table(r, nrows, nfields, text, big=False):
                         el = el[::-1]
                 raw += el
         rows.append(raw.hex())
-    return {"fields": fields, "rows": rows}
+    return rows
+
+
+# types of equal size that a key made of field NAMES (or of the record size) cannot tell apart
+_RETYPE = {"i1": ["u1"], "u1": ["i1"], "b1": ["u1"], "i2": ["u2", ">i2"], "u2": ["i2", ">u2"],
+           "i4": ["u4", "f4", ">i4"], "u4": ["i4", "f4", ">u4"], "f4": ["i4", "u4", ">f4"],
+           "i8": ["u8", "f8", ">i8"], "u8": ["i8", "f8", ">u8"], "f8": ["i8", "u8", ">f8"],
+           "c8": ["f8", "i8"], "c16": [">c16"]}
+
+
+def twin_table(r, tbl, text):
+    """same field names, same shapes, same record size, same number of rows -- other types / byte orders, other values"""
+    fields = []
+    for n, t, sh in tbl["fields"]:
+        base = t.lstrip("<>|=")
+        if base[0] == "S":
+            w = esz(base)
+            nt, nsh = (("|u1", sh + [w]) if (r.random() < 0.5 and not sh) else (t, sh))
+            if nt == t and w in (2, 4, 8) and not text:
+                nt = "<i%d" % w
+        else:
+            cands = [c for c in _RETYPE.get(base, [base]) if not (text and (c.startswith(">") or c.lstrip(">")[0] in "cb"))]
+            c = r.choice(cands or [base])
+            if c.startswith(">"):
+                nt = (">" if not t.startswith(">") else "<") + c[1:]
+            else:
+                nt = ("|" if esz(c) == 1 else (t[0] if t[0] in "<>" else "<")) + c
+            nsh = sh
+        fields.append([n, nt, nsh])
+    return {"fields": fields, "rows": gen_rows(r, fields, len(tbl["rows"]), text)}
 
 
 def fixed_table(n):
@@ -501,7 +534,7 @@ class Algebra(Entry):
         r = ctx.rng
         cs = []
         if round == 0:
-            ns = range(1, 7) if not ctx.quick() else (1, 4)
+            ns = range(1, 7) if not ctx.quick() else (1, 3)
             for n in ns:
                 bounds = [None] + list(range(-n - 2, n + 3))
                 for a in bounds:
@@ -519,7 +552,7 @@ class Algebra(Entry):
                 for x in range(-n - 2, n + 3):
                     cs.append({"f": "rows2read", "n": n, "rows": ["scalar", x], "family": "rows2read"})
             ctx.exhaustive = True
-        for _ in range(ctx.n(200, 2000)):
+        for _ in range(ctx.n(120, 2000)):
             n = r.choice([1, 2, 3, 7, 50, 10**6, 10**12])
             def b():
                 return r.choice([None, r.randint(-n - 3, n + 3), r.randint(-3, 3), r.randint(-2 * n, 2 * n)])
@@ -623,6 +656,81 @@ def col_pool(names):
     return out
 
 
+def uneven_rowlists(r, n, count):
+    """row lists of length 4..6 that are NOT evenly spaced although their end points (and often their first gap)
+    fit a constant step -- what a 'these rows are a slice' shortcut judged from a few elements would get wrong;
+    plus genuinely evenly spaced ones"""
+    out = []
+    tries = 0
+    while len(out) < count and tries < 50 * count:
+        tries += 1
+        ln = r.choice([4, 4, 5, 6])
+        smax = (n - 1) // (ln - 1)
+        if smax < 1:
+            continue
+        st = r.randint(1, smax)
+        a = r.randint(0, n - 1 - st * (ln - 1))
+        b = a + st * (ln - 1)
+        even = [a + st * i for i in range(ln)]
+        kind = r.random()
+        if kind < 0.15:
+            l = even
+        else:
+            inner = list(range(a + 1, b))
+            keep_first_gap = kind < 0.6 and (a + st) in inner
+            pool = [x for x in inner if not (keep_first_gap and x <= a + st)]
+            need = ln - 2 - (1 if keep_first_gap else 0)
+            if len(pool) < need:
+                continue
+            mid = sorted(r.sample(pool, need))
+            l = [a] + ([a + st] if keep_first_gap else []) + mid + [b]
+            if l == even:
+                continue
+        if r.random() < 0.3:
+            l = l[:]
+            r.shuffle(l)
+        if r.random() < 0.15:
+            l = l + [r.choice(l)]
+        out.append(l)
+    return out
+
+
+def gen_long_rowlists(ctx, r, round):
+    """tables of 7..12 rows, row lists of length 4..6 (property quantifier: every subset and ordering of row indices)"""
+    cs = []
+    quick = ctx.quick()
+    allcols_styles = [("SRead", "recfile"), ("SGetitem", "recfile"), ("SSfRead", "sfile"), ("SGetitem", "sfile"),
+                      ("SSfRead", "sfile_fn"), ("SReadFields", "recfile")]
+    for n in ((9, 7, 12) if round == 0 else (r.randint(7, 12),)):
+        tbl = fixed_table(n)
+        names = [f[0] for f in tbl["fields"]]
+        for delim in ((None, ",") if n == 9 else (None,)):
+            for l in uneven_rowlists(r, n, ctx.n(30 if n == 9 else 12, 120)):
+                for style, api in r.sample(allcols_styles, 2):
+                    cs.append(complete(r, tbl, delim, style, api, ["list", l], ["none"]))
+                if r.random() < 0.3:
+                    style, api = r.choice([s for s in STYLES if s[0] != "SGetitem"])
+                    cs.append(complete(r, tbl, delim, style, api, ["list", l], r.choice(col_pool(names))))
+    if not quick and round == 0:
+        # every subset of size 4..6 of the rows of tables with 7..10 rows (binary, all columns), sampled for 11, 12
+        for n in range(7, 13):
+            tbl = fixed_table(n)
+            for ln in (4, 5, 6):
+                subs = list(itertools.combinations(range(n), ln))
+                if n > 10:
+                    subs = r.sample(subs, 150)
+                for sub in subs:
+                    l = list(sub)
+                    if r.random() < 0.25:
+                        r.shuffle(l)
+                    style, api = r.choice(allcols_styles)
+                    cs.append(complete(r, tbl, None, style, api, ["list", l], ["none"]))
+    for c in cs:
+        c["split"] = False if c["style"] in ("SGetitem", "SChain") else c["split"]
+        c.setdefault("family", "long-rowlist")
+    return cs
+
+
 STYLES = [("SRead", "recfile"), ("SReadFields", "recfile"), ("SGetitem", "recfile"), ("SChain", "recfile"),
           ("SChainRead", "recfile"), ("SSfRead", "sfile"), ("SSfReadFields", "sfile"), ("SSfRead", "sfile_fn"),
           ("SGetitem", "sfile"), ("SChain", "sfile")]
@@ -704,7 +812,7 @@ def gen_cases(ctx, round):
             # slices: exhaustive (thorough, n <= 6, fixed tables) or sampled
             pool = slice_pool(n)
             exhaustive = (not quick) and round == 0 and tfam.startswith("fixed") and n <= 6 and delim in (None, ",")
-            chosen = pool if exhaustive else r.sample(pool, min(len(pool), ctx.n(25, 80)))
+            chosen = pool if exhaustive else r.sample(pool, min(len(pool), ctx.n(18, 80)))
             for rows in chosen:
                 style, api = r.choice([s for s in STYLES if s[0] in ("SGetitem", "SChain")])
                 cs.append(complete(r, tbl, delim, style, api, rows, r.choice(cols_all)))
@@ -717,17 +825,245 @@ def gen_cases(ctx, round):
                         style, api = r.choice(STYLES)
                         cs.append(complete(r, tbl, delim, style, api, ["list", list(l)], r.choice(cols_all)))
             # seeded random
-            for _ in range(ctx.n(25, 100)):
+            for _ in range(ctx.n(15, 100)):
                 style, api = r.choice(STYLES)
                 cs.append(complete(r, tbl, delim, style, api, rand_rows(r, n, style in ("SGetitem", "SChain")),
                                    r.choice(cols_all)))
+    cs += gen_long_rowlists(ctx, r, round)
     for c in cs:
         c.setdefault("family", "gen")
     return cs
 
 
+# ----------------------------------------------------------------------------------------------------
+# histories: several calls in ONE process, arranged so that state carried across calls would show
+#   mode "path"   : the same file path rewritten with another table / delimiter between the calls
+#   mode "object" : one SFile / Recfile object reused for the next file through its public open()
+#   mode "args"   : the same rows ndarray / columns list OBJECT passed again after being changed in place
+#   mode "plain"  : fresh objects; selections that share what a lazy key would use (end points, lengths, names)
+# Every call is judged as usual (model on the bytes of the file it reads = implementation?  Spec.check against
+# the table that was written); the model and the checker know nothing of the history, so agreement means the
+# call returned what it returns when made alone.
+# ----------------------------------------------------------------------------------------------------
+def _write_file(fn, arr, delim, fam):
+    import esutil.sfile as sfile
+    import esutil.recfile as recfile
+    if os.path.exists(fn):
+        os.remove(fn)
+    if fam == "sfile":
+        sfile.write(arr.copy(), fn, delim=delim)
+        raw = open(fn, "rb").read()
+        return raw[raw.index(b"\nEND\n\n") + 6:]
+    recfile.write(fn, arr.copy(), delim=delim)
+    return open(fn, "rb").read()
+
+
+def run_history(c):
+    import numpy as np
+    import esutil.sfile as sfile
+    import esutil.recfile as recfile
+    d = WORK["dir"]
+    os.makedirs(d, exist_ok=True)
+    mode = c["mode"]
+    on_disk, handles, shared = {}, {}, {"rows": None, "cols": None}
+    outs = []
+    try:
+        for st in c["steps"]:
+            fam = "sfile" if st["api"].startswith("sfile") else "recfile"
+            fn = os.path.join(d, "c02h_%d_%d.rec" % (os.getpid(), st.get("slot", 0)))
+            arr = build_array(st["tbl"])
+            key = json.dumps([st["tbl"], st["delim"], fam], sort_keys=True)
+            if on_disk.get(fn, (None,))[0] != key:
+                on_disk[fn] = (key, _write_file(fn, arr, st["delim"], fam))
+            data = on_disk[fn][1]
+            names = [f[0] for f in st["tbl"]["fields"]]
+            fullc = [[_cells_of(arr[nm], i) for nm in names] for i in range(arr.shape[0])]
+            rows, cols = py_rows(st), py_cols(st)
+            if mode == "args":
+                if st["rows"][0] == "list":
+                    if shared["rows"] is not None and len(shared["rows"]) == len(st["rows"][1]):
+                        shared["rows"][:] = st["rows"][1]
+                    else:
+                        shared["rows"] = np.array(st["rows"][1], dtype="i8")
+                    rows = shared["rows"]
+                if st["cols"][0] == "list":
+                    if shared["cols"] is not None:
+                        shared["cols"][:] = st["cols"][1]
+                    else:
+                        shared["cols"] = list(st["cols"][1])
+                    cols = shared["cols"]
+            kw = {}
+            if st["style"] in ("SRead", "SSfRead"):
+                kw = {"rows": rows, "columns": cols}
+            elif st["style"] in ("SReadFields", "SSfReadFields"):
+                kw = {"rows": rows, "fields": cols}
+            if st["split"]:
+                kw["split"] = True
+            if st["reduce"]:
+                kw["reduce"] = True
+            if st.get("header") and st["style"].startswith("SSf"):
+                kw["header"] = True
+            want = names if st["cols"][0] == "none" else ([st["cols"][1]] if st["cols"][0] == "name" else
+                                                          [n for n in names if n in st["cols"][1]])
+            try:
+                if st["api"] == "sfile_fn":
+                    res = sfile.read(fn, **kw)
+                else:
+                    h = handles.get(fam) if mode == "object" else None
+                    if h is None:
+                        if fam == "sfile":
+                            h = sfile.SFile(fn)
+                        else:
+                            rk = {"nrows": int(arr.size)} if st.get("nrows_kw") else {}
+                            h = recfile.Recfile(fn, dtype=arr.dtype, delim=st["delim"], **rk)
+                        if mode == "object":
+                            handles[fam] = h
+                    elif fam == "sfile":
+                        h.open(fn)                               # the same object, next file
+                    else:
+                        h.open(fn, mode="r", dtype=arr.dtype, delim=st["delim"])
+                    try:
+                        res = _on_handle(h, st["style"], rows, cols, kw, st)
+                    finally:
+                        if mode != "object":
+                            h.close()
+                if "header" in kw:
+                    res, hdr = res
+                    if not isinstance(hdr, dict) or hdr.get("_SIZE") != arr.size:
+                        res = "bad header"
+                out = ["ok", canon_value(res, arr, want)]
+            except Exception as e:  # noqa
+                out = ["err", core.errclass(e), "%s: %s" % (type(e).__name__, str(e)[:160])]
+            outs.append({"out": out, "full": fullc, "data": data.hex(), "nrows": int(arr.size)})
+    finally:
+        for h in handles.values():
+            try:
+                h.close()
+            except Exception:  # noqa
+                pass
+        for fn in on_disk:
+            if os.path.exists(fn):
+                os.remove(fn)
+    return outs
+
+
+class History(Entry):
+    name = "history"
+    search_rounds = 1
+
+    def cases(self, ctx, round=0):
+        return gen_histories(ctx, round)
+
+    def impl(self, c):
+        return run_history(c)
+
+    def _terms(self, c, outs):
+        ts = []
+        for st, o in zip(c["steps"], outs):
+            names = [f[0] for f in st["tbl"]["fields"]]
+            pt = oracle_table(st["tbl"]) if st["delim"] is not None else []
+            ts.append("v_req %s %s %s %s %s" % (ctab3(pt), crfile(st["tbl"], st["delim"], bytes.fromhex(o["data"]), o["nrows"]),
+                                                 crequest(st, names), cgrid(o["full"]), cout(o["out"])))
+        return ts
+
+    def term(self, c, outs):
+        return "v_seq [%s]" % "; ".join(self._terms(c, outs))
+
+    def show(self, c):
+        return None
+
+    def nontrivial(self, c, outs):
+        return len(c["steps"]) >= 2
+
+    def family(self, c):
+        return "history/%s/%s" % (c["mode"], c.get("what", ""))
+
+
+def _step(r, tbl, delim, style, api, rows, cols, slot=0, split=False, reduce=False):
+    st = complete(r, tbl, delim, style, api, rows, cols)
+    st["split"], st["reduce"] = bool(split and style not in ("SGetitem", "SChain")), bool(reduce and style.startswith("SSf"))
+    st["slot"] = slot
+    st["header"] = style.startswith("SSf") and api != "x" and r.random() < 0.3
+    st["nrows_kw"] = r.random() < 0.3
+    return st
+
+
+def gen_histories(ctx, round):
+    r = ctx.rng
+    hs = []
+    col_styles = [s for s in STYLES if s[0] != "SGetitem"]
+    bases = [(fixed_table(5), None), (fixed_table(5), ",")]
+    for _ in range(ctx.n(2, 8)):
+        text = r.random() < 0.4
+        t = rand_table(r, r.choice([2, 3, 5, 6]), r.randint(2, 5), text, big=True)
+        bases.append((t, r.choice(DELIMS[1:]) if text else None))
+    for tbl, delim in bases:
+        n = len(tbl["rows"])
+        names = [f[0] for f in tbl["fields"]]
+        text = delim is not None
+        sels = [["list", names[:2]], ["name", names[0]], ["name", names[-1]], ["list", [names[-1], names[0]]], ["none"],
+                r.choice(col_pool(names))]
+        for cols in sels:
+            # (b) same path, same record size, same field names -- another table
+            tw = twin_table(r, tbl, text)
+            rows = rand_rows(r, n, False)
+            seq = []
+            for k, t in enumerate((tbl, tw, tbl)):
+                style, api = r.choice(col_styles)
+                seq.append(_step(r, t, delim, style, api, rows if r.random() < 0.7 else rand_rows(r, n, False), cols,
+                                 slot=0, split=r.random() < 0.2, reduce=r.random() < 0.2))
+            hs.append({"mode": "path", "what": "twin-types", "steps": seq})
+            # (c) one object, next file
+            tw2 = twin_table(r, tbl, text)
+            fam_api = r.choice(["sfile", "recfile"])
+            seq = []
+            for k, t in enumerate((tbl, tw2, tbl)):
+                style, api = r.choice([s for s in col_styles if s[1] == fam_api])
+                seq.append(_step(r, t, delim, style, api, rand_rows(r, n, False), cols, slot=k % 2))
+            hs.append({"mode": "object", "what": "reopen", "steps": seq})
+        # a full read first, then a subset of the twin; and the other way round
+        tw = twin_table(r, tbl, text)
+        hs.append({"mode": "path", "what": "full-then-subset", "steps": [
+            _step(r, tbl, delim, "SSfRead", "sfile", ["none"], ["none"]),
+            _step(r, tw, delim, "SSfRead", "sfile", ["none"], ["list", names[:1]]),
+            _step(r, tbl, delim, "SRead", "recfile", ["none"], ["list", names[:1]]),
+            _step(r, tw, delim, "SRead", "recfile", ["none"], ["none"])]})
+        # same path, same byte size, another delimiter
+        if text:
+            d2 = r.choice([d for d in DELIMS[1:] if d != delim])
+            hs.append({"mode": "path", "what": "delimiter-switch", "steps": [
+                _step(r, tbl, delim, "SSfRead", "sfile", rand_rows(r, n, False), r.choice(sels)),
+                _step(r, tbl, d2, "SSfRead", "sfile", rand_rows(r, n, False), r.choice(sels)),
+                _step(r, tbl, delim, "SChain", "sfile", rand_rows(r, n, True), ["list", names[:1]])]})
+        # (a) the same argument objects, changed in place between the calls
+        for _ in range(2):
+            ln = r.randint(1, 3)
+            style, api = r.choice([s for s in col_styles if s[0] not in ("SChain",)])
+            k = r.randint(1, min(2, len(names)))
+            seq = [_step(r, tbl, delim, style, api, ["list", [r.randint(0, n - 1) for _ in range(ln)]],
+                         ["list", r.sample(names, k)]) for _ in range(3)]
+            hs.append({"mode": "args", "what": "mutated-arguments", "steps": seq})
+    # (b) selections sharing end points / length on a longer table, all columns and a subset, binary and text
+    for delim in (None, ","):
+        n = r.choice([7, 9, 12])
+        tbl = fixed_table(n)
+        for _ in range(ctx.n(4, 20)):
+            ls = uneven_rowlists(r, n, 1)
+            if not ls:
+                continue
+            l = sorted(set(ls[0]))
+            a, b, ln = l[0], l[-1], len(l)
+            others = [sorted([a, b] + r.sample(range(a + 1, b), ln - 2)) for _ in range(2) if b - a - 1 >= ln - 2]
+            style, api = r.choice([("SRead", "recfile"), ("SSfRead", "sfile"), ("SGetitem", "sfile")])
+            seq = [_step(r, tbl, delim, style, api, ["list", x], ["none"]) for x in [l] + others]
+            hs.append({"mode": r.choice(["plain", "object", "args"]), "what": "same-end-points", "steps": seq})
+    for h in hs:
+        h["family"] = "history"
+    return hs
+
+
 ENTRIES = [Algebra()] + [Read(k) for k in ("slice_binary", "slice_unpacked", "rowlist", "scalar_row", "columns",
-                                             "fields_kw", "options")]
+                                             "fields_kw", "options")] + [History()]
 
 TRUSTED = [
     "Coq 8.16.1 kernel (coqc, vm_compute; no native_compute); every theorem of C02/Properties.v is closed under the global context",
